@@ -230,6 +230,7 @@ type vfGW struct {
 	ymu       sync.Mutex
 	yArmed    map[string]bool          // "point|peer": the next goroutine arriving there is held
 	yParked   map[string]chan struct{} // goroutines currently held
+	yCount    map[string]int           // parks per point (coverage)
 	cancelled []*Subscription
 	closeErr  map[string]string
 }
@@ -353,6 +354,7 @@ func newVfGW(x *vfExec, cfg *vfGWCfg, msgs map[string]vfMsgSpec, extra ...Option
 	}
 	opts = append(opts, extra...)
 	g.yArmed, g.yParked = map[string]bool{}, map[string]chan struct{}{}
+	g.yCount = map[string]int{}
 	verifHooks.yield = g.onYield
 	n, err := vfNewNode(g.w, "N", cfg.Router, opts...)
 	if err != nil {
@@ -510,6 +512,7 @@ func (g *vfGW) onYield(point string, p peer.ID) {
 	delete(g.yArmed, key)
 	ch := make(chan struct{})
 	g.yParked[key] = ch
+	g.yCount[point]++
 	g.ymu.Unlock()
 	<-ch
 }
@@ -1121,6 +1124,11 @@ func (g *vfGW) finish() {
 	for k, ch := range g.yParked {
 		close(ch)
 		delete(g.yParked, k)
+	}
+	if g.x.judge {
+		for point, n := range g.yCount {
+			g.x.r.count("stream_goroutine_held_at:"+point, int64(n))
+		}
 	}
 	g.ymu.Unlock()
 	defer func() { verifHooks.yield = nil }()
